@@ -35,6 +35,16 @@ CLAIMED = {
              "Acceptance of every in-range transfer is checked by correspondence and the independent feasibility oracle (partial).",
              technique="Coq proof (invariant by induction over histories); differential correspondence with on/inside/outside boundary streams",
              design="5 C03"),
+ 'C05': dict(text="Theorems: the exact solver is sound (gauss_sound: any returned vector satisfies every row; induction over the system size); the "
+             "rows mean what the chemistry says (concentration / quantity / total rows <-> statements about the mixture's amounts, any unit "
+             "pair); every accepted request has strictly positive amounts, meets the n+1 solved rows exactly and every row within the residual "
+             "tolerance; for concentration+total and quantity+total (any number of solutes of any kinds) the RETURNED CONTAINER has exactly the "
+             "keys solutes+solvent, positive amounts, every stated concentration read back in its own unit and the total (full statement); for "
+             "concentration+quantity all concentrations and the first quantity exactly, the others within tolerance (partial); with a container "
+             "solvent the result is a transfer out of it (C01/C02 apply) and both outputs satisfy the invariant. Completeness (a feasible "
+             "request is accepted) and LAPACK are left to correspondence + the read-back oracle.",
+             technique="Coq proof (Gaussian elimination soundness by induction, row-meaning lemmas, container construction lemmas); differential correspondence with an exact solver; read-back oracle",
+             design="5 C05"),
  'C07': dict(text="Theorems: remove / fill_to / transfers in and out of a region act on each addressed well as the stand-alone container "
              "operation (for distinct addresses) and leave every other well identical (Leibniz equality of the well); pairing is "
              "one-to-many, many-to-one or element-wise for equal shapes, every other shape combination is rejected. Correspondence on "
